@@ -162,7 +162,7 @@ pub fn universe(quick: bool) -> Vec<AbsReplay> {
 	let mut out = vec![];
 	for v in &versions {
 		let regime = spec::regime(*v);
-		let geckos: Vec<Gecko> = if spec::gte(*v, (3, 3)) { vec![Gecko::None, Gecko::Live { live: 700, nonzero_pad: true }, Gecko::Live { live: 1024, nonzero_pad: false }, Gecko::Live { live: 66000, nonzero_pad: false }] } else { vec![Gecko::None] };
+		let geckos: Vec<Gecko> = if spec::gte(*v, (3, 3)) { vec![Gecko::None, Gecko::Live { live: 700, nonzero_pad: true }, Gecko::Live { live: 1024, nonzero_pad: false }, Gecko::Live { live: 66000, nonzero_pad: false }, Gecko::Live { live: 262_700, nonzero_pad: false }] } else { vec![Gecko::None] };
 		for ports in &port_shapes {
 			for shape in 0..4usize {
 				// frame-history shapes
@@ -215,7 +215,7 @@ pub fn universe(quick: bool) -> Vec<AbsReplay> {
 					for ends in 0..=2u8 {
 						for meta in &metas {
 							for fill in [Fill::A, Fill::Ones] {
-								if matches!(gk, Gecko::Live { live: 66000, .. }) && !(ends == 1 && fill == Fill::A && shape == 1 && meta.as_ref().map_or(false, |m| m.len() == 4)) {
+								if matches!(gk, Gecko::Live { live: 66000 | 262_700, .. }) && !(ends == 1 && fill == Fill::A && shape == 1 && meta.as_ref().map_or(false, |m| m.len() == 4)) {
 									continue;
 								}
 								if fill == Fill::Ones && quick && (shape != 2 || ends != 1) {
